@@ -17,6 +17,21 @@ def check(run, driver):
         "through the Lean model. Non-trivial = graph has an edge, sigma>0, r>0, t>=3"
     )
     thorough = run.tier == "thorough"
+    # ---- translator: the map itself is regenerated from the CURRENT source and proved equal to the model's `logistic`
+    #      (the function `logistic_mem` / `orbit_mem` are about) for all rationals, not on samples
+    import gen_tables
+    try:
+        params, term = gen_tables.arithmetic_function(gen_tables.SYN, "logistic_map")
+        if len(params) != 2:
+            raise gen_tables.Untranslatable(f"logistic_map takes {params}")
+        src = ("import CEModel.Synthetic\nimport Mathlib.Tactic.Ring\n/-! GENERATED from /repo by harness/gen_tables.py -- do not edit. -/\n"
+               f"def Generated.logisticMap ({params[0]} {params[1]} : Rat) : Rat := {term}\n"
+               f"example : ∀ {params[0]} {params[1]} : Rat, Generated.logisticMap {params[0]} {params[1]} = CE.Syn.logistic {params[1]} {params[0]} := by\n"
+               f"  intro {params[0]} {params[1]}; unfold Generated.logisticMap CE.Syn.logistic; ring\n")
+        ok, out = gen_tables.obligation_standalone("ObC19", src)
+        run.oblige("ObC19 logistic_map regenerated from the source = model's logistic, for all rationals (ring)", ok, out if not ok else "")
+    except gen_tables.Untranslatable as e:
+        run.extra["translator"] = f"UNTRANSLATABLE ({e}) -- logistic_map is no longer a single arithmetic return; the obligation is not established on this run and the property is decided by the one-step replay and the range check alone"
     configs = [dict()]  # default call
     rng = run.rng
     for n in (1, 2, 3):
